@@ -2,6 +2,13 @@ package props
 
 import (
 	"fmt"
+	"io"
+	"time"
+
+	"pault.ag/go/debian/changelog"
+	"pault.ag/go/debian/control"
+	"pault.ag/go/debian/dependency"
+	"pault.ag/go/debian/version"
 	"strconv"
 	"strings"
 	"sync"
@@ -65,6 +72,65 @@ var totalImpl = map[string]core.Adapter{}
 
 func init() {
 	totalImpl["law-concurrent"] = lawConcurrent
+	// law: a parse that is waiting for more input (a pipe or socket with an incomplete stanza)
+	// does not keep independent parses from finishing.  args: the text parsed meanwhile (hex)
+	totalImpl["law-noblock"] = func(a []string) string {
+		text := core.MustUnHex(a[0])
+		pr, pw := io.Pipe()
+		started := make(chan struct{})
+		finished := make(chan struct{})
+		go func() {
+			defer close(finished)
+			r, err := control.NewParagraphReader(&signalReader{r: pr, second: started}, nil)
+			if err == nil {
+				r.All()
+			}
+		}()
+		go pw.Write([]byte("Package: waiting\nDescription: half a stanza\n"))
+		select {
+		case <-started: // the blocked parser has consumed what there is and waits for more
+		case <-time.After(5 * time.Second):
+		}
+		done := make(chan string, 1)
+		go func() {
+			ps, err := readAllParas(text)
+			var sl []rawPara
+			control.Unmarshal(&sl, strings.NewReader(text))
+			d, _ := control.NewDecoder(strings.NewReader(text), nil)
+			if d != nil {
+				var one rawPara
+				d.Decode(&one)
+			}
+			dependency.Parse("foo (>= 1) | bar [amd64]")
+			version.Parse("1:2.0-3")
+			changelog.Parse(strings.NewReader("hello (1.0) unstable; urgency=low\n\n  * x\n\n -- A <a@b>  Mon, 02 Jan 2006 15:04:05 -0700\n"))
+			done <- fmt.Sprintf("%d %v", len(ps), err == nil)
+		}()
+		verdict := "ok"
+		select {
+		case <-done:
+		case <-time.After(10 * time.Second):
+			verdict = "FAIL independent parses do not finish while another reader waits for its input"
+		}
+		pw.Close()
+		<-finished
+		return verdict
+	}
+}
+
+// signalReader closes `second` when Read is called for the second time
+type signalReader struct {
+	r      io.Reader
+	n      int
+	second chan struct{}
+}
+
+func (s *signalReader) Read(p []byte) (int, error) {
+	s.n++
+	if s.n == 2 {
+		close(s.second)
+	}
+	return s.r.Read(p)
 }
 
 var _ = map[string]core.Adapter{
@@ -212,6 +278,9 @@ func streamTotal(g *core.G) {
 			batch = nil
 		}
 	}
+	for i := g.N(3, 20); i > 0; i-- {
+		g.Emit("law-noblock", core.Hex(genLineSoup(r)+"\n\nPackage: p\nVersion: 1\n"))
+	}
 	for _, ep := range entryPoints {
 		for i := 0; i < n; i++ {
 			seed := ep.Seed(r)
@@ -271,7 +340,7 @@ func init() {
 		ID: "C18", PropsModule: "GoDebian.Props.C18", TieModule: "GoDebian.Tie.Globals",
 		Facts: []string{"globals:inventory", "fingerprint:dependency.input.Peek", "fingerprint:dependency.input.Next"},
 		Streams: []core.Stream{{Name: "total", Gen: streamTotal,
-			Domain: "per entry point (version.Parse, ParseArch, ParseArchitectures, dependency.Parse, ParagraphReader, ParseDsc, ParseChanges, ParseBinaryIndex, ParseSourceIndex, Unmarshal into a probe struct, changelog.Parse): grammar-derived seeds, 1-3 random mutations of them (substitute / insert / delete / truncate / duplicate / splice / hostile bytes incl. NUL, CR, high bytes, UTF-8 blanks / a field once more with its name in other letter case), short hostile strings, and 4 KiB / 64 KiB inputs (one long token, thousands of separators, repeated seeds, random bytes); model vs implementation (a panic or a hang of the Go code shows up as such; 'err+value' = value together with an error); law-depindep: a parse result changed in place does not influence later parses; law-concurrent: every input parsed twice sequentially and by 16 goroutines in shuffled order, in a binary built with -race"}},
+			Domain: "per entry point (version.Parse, ParseArch, ParseArchitectures, dependency.Parse, ParagraphReader, ParseDsc, ParseChanges, ParseBinaryIndex, ParseSourceIndex, Unmarshal into a probe struct, changelog.Parse): grammar-derived seeds, 1-3 random mutations of them (substitute / insert / delete / truncate / duplicate / splice / hostile bytes incl. NUL, CR, high bytes, UTF-8 blanks / a field once more with its name in other letter case), short hostile strings, and 4 KiB / 64 KiB inputs (one long token, thousands of separators, repeated seeds, random bytes); model vs implementation (a panic or a hang of the Go code shows up as such; 'err+value' = value together with an error); law-depindep: a parse result changed in place does not influence later parses; law-noblock: a reader waiting on a pipe does not stall independent parses; law-concurrent: every input parsed twice sequentially and by 16 goroutines in shuffled order, in a binary built with -race"}},
 		Impl: totalImpl, TrustedBase: tb,
 		Readable: func(op string, a []string) string {
 			if op == "law-concurrent" {
